@@ -37,6 +37,9 @@ class FunctionContract:
         self.configure = configure
         self.name = name or qual.split(":")[1]
         self.expect_paths = expect_paths
+        self.required = False        # True: the function's *name* is part of the spec (missing = refuted)
+        self.static_replay = None    # replay script used for every refuted obligation of this contract
+        self.static_witness = None
 
 
 def solve(axioms, pc, goal, timeout_ms=10000, want_model=True):
@@ -144,8 +147,14 @@ def verify_function(contract, sources=None, timeout_ms=10000):
            "contract_calls": []}
     loc = sources.locate(contract.qual)
     if loc is None:
-        rep["verdicts"].append(Verdict(contract.name + "/resolve", "missing",
-                                       note="function not found in /repo").to_dict())
+        if contract.required:
+            v = Verdict(contract.name + "/exists", "refuted", note="required method is not defined")
+            v.replay = contract.static_replay
+            v.witness_class = contract.static_witness
+            rep["verdicts"].append(v.to_dict())
+        else:
+            rep["verdicts"].append(Verdict(contract.name + "/resolve", "missing",
+                                           note="function not found in /repo").to_dict())
         return rep
     module, cname, fd = loc
     rep["sha"] = sources.sha(module, fd)
@@ -215,7 +224,10 @@ def verify_function(contract, sources=None, timeout_ms=10000):
         v = Verdict(name, status, backend, dt)
         if status == "refuted":
             v.model_text = model_summary(model, info) if model is not None else None
-            if contract.concretise is not None and model is not None:
+            if contract.static_replay is not None:
+                v.replay = contract.static_replay
+                v.witness_class = contract.static_witness
+            elif contract.concretise is not None and model is not None:
                 try:
                     cz = contract.concretise(model, info, name, I, q)
                     if isinstance(cz, dict):
